@@ -241,6 +241,30 @@ pub fn run(args: &[String]) {
       "len_lengths": lens.len(), "entries": entries, "all_sum_ok": all_sum_ok, "all_range_ok": all_range_ok, "flips": flips,
       "stored_period": fx(match &pp { PeriodicPoling::On { period, .. } => *(*period / M), _ => f64::NAN })}));
   }
+  // ---- whole domain lists (thorough tier): every entry, for entrywise comparison with the generated poling_domains in Coq
+  let nfull = arg_u64(args, 3, 0) as usize;
+  // short lists first: under a time budget they are the ones that are always completed
+  let full_cases: Vec<(usize, f64, Apodization)> = vec![
+    (1_000, 19e-6, Apodization::Bartlett(2.)),
+    (2_048, 46.5e-6, Apodization::Hamming(1.)),
+    (1_001, 12e-6, Apodization::Interpolate(vec![0.125, 0.5, 0.75, 1., 0.875, 1., 0.625, 0.25, 0.0625])),
+    (100_000, 5e-6, Apodization::Gaussian { fwhm: 0.2 * M }),
+    (30_011, 7.25e-6, Apodization::Blackman(1.5)),
+    (4_999, 9.5e-6, Apodization::Cosine(1.)),
+  ];
+  for (n, period, ap) in full_cases.into_iter().take(nfull) {
+    let l = period * (n as f64 - 0.5);
+    let pp = PeriodicPoling::new(period * M, ap.clone());
+    let nd = pp.num_domains(l * M);
+    let pp2 = pp.clone();
+    match guarded(move || pp2.poling_domains(l * M)) {
+      Ok(d) => {
+        let flat: Vec<f64> = d.iter().flat_map(|e| [e.0, e.1]).collect();
+        emit(json!({"kind": "dom_full", "period": fx(period), "L": fx(l), "ap": apod_json(&ap), "n": nd, "pairs": fxs(&flat)}));
+      }
+      Err(e) => emit(json!({"kind": "dom_panic", "period": fx(period), "L": fx(l), "ap": apod_json(&ap), "msg": e})),
+    }
+  }
   emit(json!({"kind": "dom_off", "n": PeriodicPoling::Off.num_domains(1e-3 * M), "len_domains": PeriodicPoling::Off.poling_domains(1e-3 * M).len(),
     "len_lengths": PeriodicPoling::Off.poling_domain_lengths(1e-3 * M).len()}));
 
